@@ -1,4 +1,5 @@
 import GoLucene.Proofs.JsonRoundTrip
+import GoLucene.Proofs.Laws
 import GoLucene.TableCheck
 /-
   C12 — JSON encoding of expressions round-trips.
@@ -14,38 +15,63 @@ import GoLucene.TableCheck
   the decoded tree validates, re-encodes to the identical bytes and prints identically, each under an explicit
   decidable exclusion that is proved NECESSARY by a refutation theorem with a concrete tree:
     noNegZeroLeaf      (finding K-negzero:           a:-0.0)
-    noBigIntBound      (finding K-json-bigint-bound: a:[1 TO 9007199254740993])
+    noBigIntBound      (finding K-json-bigint-bound: a:[1 TO 9007199254740993]; also integer-valued FLOAT bounds
+                        beyond 2^53: a:[1 TO 4611686018427387904.0])
+    depthOK            (the encoding nests at most 10000 arrays / objects: the limit of encoding/json's scanner;
+                        beyond it real Go's Marshal fails and the model's decoder rejects the text)
     printStable        (finding K-json-float-exp:    a:1000000.0 prints a:1e+06 before and a:1000000 after)
     fieldsCanon, likeKindOK (trees the parser never builds)
   and it is deep-equal to the original when `kindStable e` (every leaf has the kind the decoder infers from its text).
 
+  (The first version of these theorems took the law bundles as hypotheses; while proving them two fields turned out to
+  be FALSE of the model — no depth bound, and integer-valued float bounds beyond 2^53 — i.e. the bundles were
+  unsatisfiable and the theorems vacuous.  The statements were repaired (`depthOK`, float bounds in `noBigIntBound`)
+  and `Laws.valid_enc_unbounded_false`, `Laws.int_text_bound_unbounded_false`, `Laws.decode_needs_depth`,
+  `reencode_needs_noBigFloatBound` record the refutations.)
+
   HYPOTHESES about the two modelled stdlib layers are bundled in `JsonLaws`, `NumLaws`, `NumLaws2`, `FmtLaws`
   (e.g. "parsing the text of an int64 gives it back", "a JSON object text parses to its members"): they are
-  statements about the executable definitions in Model/Json.lean and Model/Num.lean; until they are proved from those
-  definitions they are part of the trusted base of C12 (the layers themselves are validated against Go's
-  encoding/json and strconv by `bin/check layers`).  NOT proved: identity of the inline / parameterized SQL of the
+  statements about the executable definitions in Model/Json.lean and Model/Num.lean, and all of them are PROVED from
+  those definitions in Proofs/Laws.lean (`Laws.jsonLaws`, `Laws.numLaws`, `Laws.numLaws2`, `Laws.fmtLaws`; the
+  law-free forms of the theorems below are `Laws.roundtrip_decodes`, `Laws.roundtrip_full`, `Laws.retype_idem`), so
+  they are no longer part of the trusted base of C12 (the layers themselves are validated against Go's encoding/json
+  and strconv by `bin/check layers`).  NOT proved: identity of the inline / parameterized SQL of the
   decoded tree (decided by the executable check on every explored query).
 -/
 namespace GoLucene.C12
 open GoLucene.JsonRoundTrip GoLucene.Json GoLucene.NoPanic
 
-/-- decoding the encoding of a parser-shaped validated tree succeeds and yields `retype e` -/
-theorem decode_of_encode (J : JsonLaws) (N : NumLaws) (e : Expr) (hs : semShapeT e = true) (hv : validateExpr e = true)
-    (hsv : allStringsValid e = true) (hi : intsInt64 e = true) (j : Bytes) (h : marshalExpr e = .ok j) :
+/-- decoding the encoding of a parser-shaped validated tree succeeds and yields `retype e` (no law hypotheses) -/
+theorem decode_of_encode (e : Expr) (hs : semShapeT e = true) (hv : validateExpr e = true)
+    (hsv : allStringsValid e = true) (hi : intsInt64 e = true) (hdp : depthOK e = true)
+    (j : Bytes) (h : marshalExpr e = .ok j) :
     unmarshalTop j = .ok (retype e) :=
-  roundtrip_decodes J N e hs hv hsv hi j h
+  Laws.roundtrip_decodes e hs hv hsv hi hdp j h
 
-/-- the whole round trip: decodes, validates, identical bytes, identical print, deep-equal when kinds are stable -/
-theorem roundtrip (J : JsonLaws) (N : NumLaws) (F : FmtLaws) (ip : Nat → Bool) (e : Expr)
+/-- the whole round trip over trees: decodes, validates, identical bytes, identical print, deep-equal when kinds are stable -/
+theorem roundtrip (ip : Nat → Bool) (e : Expr)
     (hs : semShapeT e = true) (hv : validateExpr e = true) (hsv : allStringsValid e = true) (hi : intsInt64 e = true)
-    (hc : fieldsCanon e = true) (hlk : likeKindOK e = true) (hz : noNegZeroLeaf e = true) (hb : noBigIntBound e = true)
+    (hdp : depthOK e = true) (hc : fieldsCanon e = true) (hlk : likeKindOK e = true) (hz : noNegZeroLeaf e = true) (hb : noBigIntBound e = true)
     (hp : printStable e = true) (j : Bytes) (h : marshalExpr e = .ok j) :
     ∃ e', unmarshalTop j = .ok e' ∧ e' = retype e ∧ validateExpr e' = true ∧ marshalExpr e' = .ok j ∧
       strE ip false e' = strE ip false e ∧ (kindStable e = true → e' = e) :=
-  roundtrip_full J N F ip e hs hv hsv hi hc hlk hz hb hp j h
+  Laws.roundtrip_full ip e hs hv hsv hi hdp hc hlk hz hb hp j h
 
 /-- decoding twice changes nothing more -/
-theorem retype_idempotent (N : NumLaws) (N2 : NumLaws2) (F : FmtLaws) (e : Expr) : retype (retype e) = retype e :=
-  (roundtrip_stable N N2 F e).1
+theorem retype_idempotent (e : Expr) : retype (retype e) = retype e := Laws.retype_idem e
+
+/-- C12 over QUERIES: for every valid-UTF-8 query that Parse accepts (and whose tree is within encoding/json's nesting
+    limit), decoding the encoding succeeds, gives `retype e`, which validates; it re-encodes to the identical bytes
+    unless the tree has a -0 float leaf or a range bound beyond 2^53; prints identically unless it has an
+    integer-valued float that prints in exponent form; and is deep-equal to the original when every leaf has the kind
+    the decoder infers from its text. -/
+theorem query_roundtrip (ip : Nat → Bool) (env : Env)
+    (s df : Bytes) (hs : validUtf8 s = true) (hdf : validUtf8 df = true)
+    (e : Expr) (h : parseQuery env s df = .ok e) (hdp : depthOK e = true) (j : Bytes) (hm : marshalExpr e = .ok j) :
+    ∃ e', unmarshalTop j = .ok e' ∧ e' = retype e ∧ validateExpr e' = true ∧
+      (noNegZeroLeaf e = true → noBigIntBound e = true → marshalExpr e' = .ok j) ∧
+      (JsonParse.printNumOK e = true → strE ip false e' = strE ip false e) ∧
+      (kindStable e = true → e' = e) ∧ (env.cls.slashNotAlnum → JsonParse.leavesStable e = true → e' = e) :=
+  Laws.query_roundtrip ip env s df hs hdf e h hdp j hm
 
 end GoLucene.C12
